@@ -1573,7 +1573,8 @@ func canBreakInside(ctx *layoutContext, box Box) pr.MaybeBool {
 		return pr.False
 	} else if textWrap && isTextBox {
 		return ctx.Fonts().CanBreakText(textBox.Text)
-	} else if textWrap && bo.ParentT.IsInstance(box) {
+	} else if bo.ParentT.IsInstance(box) {
+		// whatever the white-space of this box, its descendants may allow wrapping
 		for _, child := range box.Box().Children {
 			if canBreakInside(ctx, child) == pr.True {
 				return pr.True
